@@ -804,3 +804,34 @@ silent("c08_regex_text_through_local", ["C08", "C17"], [(PATTERN, "        retur
 fire("c09_strict_remembered_per_visitor_class", "C09", [(NODE, "        visitor_method = None\n\n        if visitor.strict:", "        visitor_method = None\n\n        if type(visitor) not in _STRICT_BY_CLASS:\n            _STRICT_BY_CLASS[type(visitor)] = bool(visitor.strict)\n\n        if _STRICT_BY_CLASS[type(visitor)]:"), (NODE, "# Named Tuple for tree traversal functions\n", "_STRICT_BY_CLASS: dict[type, bool] = {}\n\n\n# Named Tuple for tree traversal functions\n")], "R-DISPATCH")
 fire("c18_child_fields_probed_once_per_class", "C18", [(LNODE, "        corresponding field and index (for lists and tuples).\"\"\"\n        for f in fields(self):\n            # Skip non-child fields\n            if not self._is_field_child(f):\n                continue\n", "        corresponding field and index (for lists and tuples).\"\"\"\n        cls = type(self)\n        if cls._child_fields_seen is None:\n            cls._child_fields_seen = tuple(f for f in fields(self) if self._is_field_child(f))\n        for f in cls._child_fields_seen:\n"), (LNODE, "        cls._child_fields = None\n", "        cls._child_fields = None\n        cls._child_fields_seen = None\n"), (LNODE, "    original_id: str | None = field(\n", "    _child_fields_seen: t.ClassVar[tuple[Field, ...] | None] = None\n\n    original_id: str | None = field(\n")], "R-LEG-LINK")
 fire("c07_findall_stops_at_first_indexed_child", "C07", [(XPATH, "                        if _match_node_element(c_info, el):\n                            if c_info not in new_work:\n                                new_work[c_info] = None\n            work = new_work", "                        if _match_node_element(c_info, el):\n                            if c_info not in new_work:\n                                new_work[c_info] = None\n                            if el.parent_index is not None:\n                                break\n            work = new_work")], "R-XP-FIND")
+
+# ---------------------------------------------------------------- capture names pass the duplicate check (C17-s21)
+fire("c17_capture_name_from_tree", "C17", [(PATTERN, '''            name = self._check_unique_and_get_capture(tree.children[2])
+
+            if name is None:
+                raise RuntimeError("Unexpected child in field_spec rule")
+
+            return replace(matcher, name=name)''', '''            cap = tree.children[2]
+            assert isinstance(cap, Tree) and cap.data == "capture"
+
+            return replace(matcher, name=str(cap.children[0]))''')], "R-VAR-ORDER")
+silent("c17_capture_name_through_helper", "C17", [(PATTERN, '''            name = self._check_unique_and_get_capture(tree.children[2])
+
+            if name is None:
+                raise RuntimeError("Unexpected child in field_spec rule")
+
+            return replace(matcher, name=name)''', '''            return self._with_capture(matcher, self._check_unique_and_get_capture(tree.children[2]))'''),
+                                                       (PATTERN, '''    def sequence(self, tree: Tree[str]) -> SequenceMatcher | ValueMatcher:''', '''    def _with_capture(self, matcher: BaseMatcher, label: str | None) -> BaseMatcher:
+        if label is None:
+            raise RuntimeError("Unexpected child in field_spec rule")
+
+        return replace(matcher, name=label)
+
+    def sequence(self, tree: Tree[str]) -> SequenceMatcher | ValueMatcher:''')])
+silent("c17_capture_name_walrus", "C17", [(PATTERN, '''        name = self._check_unique_and_get_capture(tree.children[1])
+
+        if name is not None:
+            # Any value with capture
+            return AnyMatcher(name=name)''', '''        if (label := self._check_unique_and_get_capture(tree.children[1])) is not None:
+            # Any value with capture
+            return AnyMatcher(name=label)''')])
